@@ -18,7 +18,7 @@ THEOREMS_FILE = "C08"
 ASSUMPTIONS = [
     "sqrt is an uninterpreted polynomial on both exact element types: the correspondence compares the computation skeletons exactly (same operations, sqrt calls, comparisons); the MEANING (L L^T = A, Q^T Q = 1, Q R = A) is carried by the theorems, which assume an ordered field with a correct sqrt oracle (instantiated with Coq's reals)",
     "Rat inputs: Cholesky up to 4x4 and QR with at most one reflection (the polynomial stand-in cubes the size of the numbers twice per reflection); Fp covers sizes 1..8 and every QR shape up to 5x5; on Fp the order is the order of residues, so `<= 0` is `== 0` there and the sign branch of Householder is `!= 0`",
-    "NOT proved: Cholesky completeness (SPD -> present; core lemma C08_cholesky_complete_partial) and upper-triangularity of R (core lemma C08_qr_triangular_partial); C08_qr assumes a regular run (no zero reflected vector, oracle correct on the squared lengths) rather than deriving it from full column rank",
+    "Cholesky completeness (present <-> positive definite), R upper triangular and regularity from full column rank are proved over real closed fields with sqrt = Num.sqrt (every rcfType; no instance is constructed here) and, in oracle-parametric form, over any real field for runs on which the oracle answered correctly (concrete instances: Coq's reals for Cholesky, a rational run for QR)",
     "floats ('to rounding accuracy') are not modelled",
 ]
 
